@@ -87,7 +87,38 @@ def closure_functions():
             yield cfg.renumber([("if", a, b), ("calli",)])
 
 
+def nested_loop_functions():
+    """Loops nested two and three deep: optional assignment; outer loop whose body is
+    [optional assignment, middle loop, optional jump block, optional assignment]; the middle
+    loop's body is [inner loop or atom, optional jump block]; a use after (and, in half of them,
+    at the head of) the outer loop.  Jump blocks are `if c: [v = ..;] break/continue`."""
+    jumps = [None,
+             ("if", [("assign", 0), ("break",)], None), ("if", [("assign", 0), ("continue",)], None),
+             ("if", [("break",)], None), ("if", [("continue",)], None)]
+    kinds = ("while", "for")
+
+    def loop(kind, body):
+        return (kind, body, None)
+
+    for k1, k2, k3 in itertools.product(kinds, kinds, kinds + (None,)):
+        for j1, j2, j3 in itertools.product(jumps, jumps, jumps[:3]):
+            if j1 is None and j2 is None:
+                continue
+            for pre, post, head_use in itertools.product((False, True), (False, True), (False, True)):
+                if k3 is None:
+                    if j3 is not None:
+                        continue
+                    inner = [("assign", 0)] if pre else [("call",)]
+                else:
+                    inner = [loop(k3, [("call",)] + ([j3] if j3 else []))]
+                middle = loop(k2, inner + ([j2] if j2 else []))
+                body = ([("use", 0)] if head_use else []) + ([("assign", 0)] if pre else []) + [middle] + ([j1] if j1 else []) \
+                    + ([("assign", 0)] if post else [])
+                yield cfg.renumber([("assign", 0), loop(k1, body), ("use", 0)])
+
+
 def exhaustive_functions():
+    yield from nested_loop_functions()
     for c in compounds():
         for prefix in ([], [("assign", 0)]):
             yield cfg.renumber(prefix + [c, ("use", 0)])
@@ -343,7 +374,9 @@ def run_shard(spec):
         if funcs:
             report(col, judge(funcs, checker, col), checker)
         col.extra["exhaustive"] = not col.budget_hit
-        col.extra["exhaustive_bounds"] = ["[optional assignment] + every compound with blocks of <=2 atoms (<=1 for three-block try forms) + final use"]
+        col.extra["exhaustive_bounds"] = ["[optional assignment] + every compound with blocks of <=2 atoms (<=1 for three-block try forms) + final use",
+                                          "closure reads: one compound over {v=, inner(), call(), return}",
+                                          "loops nested 2 and 3 deep (while/for at each level) with `if c: [v=;] break/continue` after the inner loop at each level"]
         return col.result()
 
     seed = runner.mix_seed(spec["seed"], ID, spec["name"])
